@@ -41,7 +41,7 @@ pub fn all_ops() -> Vec<EOp> {
     for s in 0..4 {
         v.push(EOp::AddFunc(s, 0));
     }
-    for b in 1..10 {
+    for b in 1..12 {
         v.push(EOp::AddFunc(0, b));
     }
     v.push(EOp::AddFunc(1, 1));
@@ -118,6 +118,51 @@ pub fn mvp_bases() -> Vec<(String, Vec<u8>)> {
             .unwrap(),
         ),
     ]
+}
+
+/// if two binaries differ only in how block types are written - a type index on one side, the
+/// inline form of the *same* signature on the other - say so (a narrow, recognisable difference)
+fn only_block_type_encoding_differs(a: &[u8], b: &[u8]) -> bool {
+    let (wa, wb) = match (wmodel::decode(a), wmodel::decode(b)) {
+        (Ok(x), Ok(y)) => (x, y),
+        _ => return false,
+    };
+    if wa.funcs.len() != wb.funcs.len() || wa.types != wb.types {
+        return false;
+    }
+    let sig = |w: &wmodel::WModule, i: &wmodel::Imm| -> Option<wmodel::FuncSig> {
+        match i {
+            wmodel::Imm::Block(wmodel::BlockTy::Empty) => Some(wmodel::FuncSig { params: vec![], results: vec![] }),
+            wmodel::Imm::Block(wmodel::BlockTy::Val(t)) => Some(wmodel::FuncSig { params: vec![], results: vec![t.clone()] }),
+            wmodel::Imm::Block(wmodel::BlockTy::Func(k)) => w.types.get(*k as usize).cloned().flatten(),
+            _ => None,
+        }
+    };
+    let mut seen = false;
+    for (fa, fb) in wa.funcs.iter().zip(wb.funcs.iter()) {
+        match (&fa.body, &fb.body) {
+            (None, None) => {}
+            (Some(x), Some(y)) => {
+                if x.ops.len() != y.ops.len() || x.locals != y.locals {
+                    return false;
+                }
+                for ((oa, _), (ob, _)) in x.ops.iter().zip(y.ops.iter()) {
+                    if oa == ob {
+                        continue;
+                    }
+                    if oa.name != ob.name || oa.imms.len() != 1 || ob.imms.len() != 1 {
+                        return false;
+                    }
+                    match (sig(&wa, &oa.imms[0]), sig(&wb, &ob.imms[0])) {
+                        (Some(p), Some(q)) if p == q && p.params.is_empty() && p.results.len() <= 1 => seen = true,
+                        _ => return false,
+                    }
+                }
+            }
+            _ => return false,
+        }
+    }
+    seen
 }
 
 struct Bump;
@@ -270,6 +315,24 @@ fn apply_op(o: &mut EObj, op: &EOp) {
                         fb.i32_const(k).block(bt, |b| {
                             b.i32_const(1).binop(ir::BinaryOp::I32Add);
                         }).drop();
+                    }
+                    10 => {
+                        // a block type looked up (not created) among the module's types: two i32 results, no parameters
+                        if let Some(bt) = ir::InstrSeqType::existing(&m.types, &[], &[ValType::I32, ValType::I32]) {
+                            fb.block(bt, |b| {
+                                b.i32_const(k).i32_const(1);
+                            })
+                            .drop()
+                            .drop();
+                        }
+                    }
+                    11 => {
+                        // a block typed by an explicit type id whose signature the inline forms could also express
+                        let ty = m.types.add(&[], &[ValType::F64]);
+                        fb.block(ty, |b| {
+                            b.f64_const(k as f64);
+                        })
+                        .drop();
                     }
                     9 => {
                         // bulk-memory instructions on a data segment of the input (which may have needed no data-count section so far)
@@ -546,8 +609,9 @@ impl<'a> Subject for EditSubject<'a> {
                     Ok(mut m2) => {
                         let e3 = m2.emit_wasm();
                         if e3 != out {
+                            let what = if only_block_type_encoding_differs(&out, &e3) { "block-type-index-vs-inline-form-of-the-same-signature".to_string() } else { crate::props::modhist::first_diff(&out, &e3) };
                             fs.push(Finding {
-                                sig: format!("not-a-fixpoint:{}", crate::props::modhist::first_diff(&out, &e3)),
+                                sig: format!("not-a-fixpoint:{}", what),
                                 detail: format!("after the edit history {:?}: emit(parse(emit(s))) differs from emit(s) ({} vs {} bytes)", hist, e3.len(), out.len()),
                             });
                         }
